@@ -352,7 +352,7 @@ func R36() Rule {
 		if bad == 0 {
 			c.Ok("R36", "cells-are-immutable", token.NoPos, true, "%d assignments to Cell fields, all on freshly allocated cells", n)
 		}
-		if n < 3 {
+		if n < 2 {
 			c.Unknown("R36", "floor/cell-stores", token.NoPos, "only %d Cell field stores found", n)
 		}
 	}}
@@ -691,7 +691,7 @@ func R40() Rule {
 			c.Fn(core.FuncName(fn))
 			c.Check(!deletes[fn], "R40", core.FuncName(fn)+"/no-delete-during-iteration", fn.Pos(), "the iteration callback never deletes rows", "the iteration callback (transitively) calls Rows.Delete while the scan is running: the btree engine skips the row after each deleted one, the leveldb engines do not — the engines disagree")
 		}
-		if n < 4 {
+		if n < 2 {
 			c.Unknown("R40", "floor/callbacks", token.NoPos, "only %d iteration callbacks found", n)
 		}
 	}}
@@ -753,7 +753,7 @@ func R41() Rule {
 			}
 			walk(fn, nil, 0)
 		}
-		if n < 6 {
+		if n < 3 {
 			c.Unknown("R41", "floor/calls", token.NoPos, "only %d store calls found inside critical sections", n)
 		}
 	}}
@@ -994,7 +994,7 @@ func R43() Rule {
 				}
 			}
 		}
-		if n < 5 {
+		if n < 3 {
 			c.Unknown("R43", "floor/bounds", token.NoPos, "only %d scan-bound arguments found", n)
 		}
 	}}
